@@ -405,7 +405,7 @@ let run_line (line : string) : string =
           (match step ops y with
            | Some _ -> "FUEL steps"
            | None -> Printf.sprintf "forms=%d final=%s" (List.length tr + 1) (show_expr y))
-      | "STEPINFO" | "EQX" | "PEQX" | "REPRINJ" | "NUMREPR" | "NAMES" | "OPS" | "CTOROPS" -> "SKIP"
+      | "STEPINFO" | "EQX" | "PEQX" | "REPRINJ" | "NUMREPR" | "NAMES" | "OPS" | "CTOROPS" | "LOCHASH" -> "SKIP"
       | "NTRACE" ->
           let (x, _) = parse_expr r in ntrace x
       | "PTRACE" ->
